@@ -131,6 +131,9 @@ type spec struct {
 	Steps      int    `json:"steps"`
 	WQ         int    `json:"wq,omitempty"`
 	Prefill    bool   `json:"prefill,omitempty"`
+	Spin       bool   `json:"spin,omitempty"`   // conc: mutators and publishers do not pause
+	Rounds     int    `json:"rounds,omitempty"` // conc: rounds per case
+	QLen       int    `json:"qlen,omitempty"`   // conc: ReadQLen of every context and WriteQLen of every PUB (0: default 128)
 }
 
 type rxAPI interface {
@@ -283,9 +286,9 @@ func newRig(c *mon.Case, sp spec) *rig {
 			name = "xpub"
 		}
 		s := hx.MustSock(c, name)
-		if sp.WQ > 0 {
-			if err := s.SetOption(mangos.OptionWriteQLen, sp.WQ); err != nil {
-				c.Violate("pub/writeqlen-rejected", "SetOption(WriteQLen,%d) on %s: %v", sp.WQ, name, err)
+		if wq := sp.WQ + sp.QLen; wq > 0 {
+			if err := s.SetOption(mangos.OptionWriteQLen, wq); err != nil {
+				c.Violate("pub/writeqlen-rejected", "SetOption(WriteQLen,%d) on %s: %v", wq, name, err)
 				return nil
 			}
 		}
@@ -295,6 +298,12 @@ func newRig(c *mon.Case, sp spec) *rig {
 	}
 	for i := 0; i < sp.NSub; i++ {
 		s := hx.MustSock(c, "sub")
+		if sp.QLen > 0 { // contexts opened later inherit the socket's queue length
+			if err := s.SetOption(mangos.OptionReadQLen, sp.QLen); err != nil {
+				c.Violate("sub/readqlen-rejected", "SetOption(ReadQLen,%d) on sub: %v", sp.QLen, err)
+				return nil
+			}
+		}
 		ss := &subSock{idx: i, sock: s}
 		ss.ctxs = append(ss.ctxs, g.newCtx(fmt.Sprintf("s%d.sock", i), i, s, nil))
 		for k := 1; k < sp.NCtx; k++ {
